@@ -17,6 +17,7 @@
 package nbs
 
 import (
+	"bufio"
 	"context"
 	"encoding/binary"
 	"errors"
@@ -199,6 +200,12 @@ var verif_ghost struct {
 	dCacheHit   bool      // the has-cache vouched for the most recently looked-up address
 	dMtCount    uint32    // result of the most recent memTable.count
 
+	// journal index (C04)
+	iPeekOK   bool      // peekRootHashAt found a valid root record ...
+	iPeekHash hash.Hash // ... holding this hash ...
+	iPeekOff  int64     // ... at this journal offset
+	iRead     int64     // bytes consumed from the index reader so far
+
 	// single-writer protocol (C41)
 	jLockHeld bool // the most recent attempt to take the journal LOCK file succeeded
 	jReadOnly bool // result of the most recent journalManifest.readOnly()
@@ -312,3 +319,15 @@ func verif_x_fslock_TryLock(l *fslock.Lock) (err error) { return l.TryLock() }
 func verif_x_errors_Is(err, target error) (ok bool) { return errors.Is(err, target) }
 
 func verif_x_fslock_New(path string) (l *fslock.Lock, err error) { return fslock.New(path) }
+
+func verif_x_bufio_ReadByte(r *bufio.Reader) (b byte, err error) { return r.ReadByte() }
+
+func verif_x_index_cb(m lookupMeta, batch []lookup, sum uint32) (err error) { return nil }
+
+// verif_b2i is 1 for true and 0 for false.
+func verif_b2i(b bool) int64 {
+	if b {
+		return 1
+	}
+	return 0
+}
